@@ -23,8 +23,8 @@ using namespace sim;
 
 namespace {
 
-enum CaseKind : int { K_TRUNC, K_TEAR, K_IOTHROW, K_WORD, K_PAIR, K_NKINDS };
-const char *const KIND_NAMES[K_NKINDS] = {"trunc", "tear", "iothrow", "word", "pair"};
+enum CaseKind : int { K_TRUNC, K_TEAR, K_IOTHROW, K_WORD, K_PAIR, K_PRESTATE, K_NKINDS };
+const char *const KIND_NAMES[K_NKINDS] = {"trunc", "tear", "iothrow", "word", "pair", "prestate"};
 
 struct DumpSpec {
     int stack = -1;
@@ -36,7 +36,7 @@ struct DumpSpec {
 struct Case {
     int kind = K_TRUNC;
     long at = 0; // trunc/tear: prefix length; iothrow: refill index; word: byte offset
-    uint32_t value = 0; // word: replacement
+    uint32_t value = 0; // word: replacement; prestate: state bits the stream is already in (1 fail, 2 bad, 4 eof)
     int reader = -1; // pair: reader stack
 };
 
@@ -162,7 +162,7 @@ struct Outcome {
     size_t refills = 0;
 };
 
-Outcome try_load(int reader, const Bytes &data, size_t start, size_t limit, int getbuf, int exc, long throw_refill, size_t budget, bool seekable = false)
+Outcome try_load(int reader, const Bytes &data, size_t start, size_t limit, int getbuf, int exc, long throw_refill, size_t budget, bool seekable = false, unsigned prestate = 0)
 {
     Outcome out;
     const SlotOps &o = ops_of(reader);
@@ -175,6 +175,13 @@ Outcome try_load(int reader, const Bytes &data, size_t start, size_t limit, int 
         is.exceptions(std::ios::badbit);
     else if (exc == 2)
         is.exceptions(std::ios::badbit | std::ios::failbit);
+    if (prestate) {
+        // the stream the loader is handed has failed before (an ifstream on a file that
+        // could not be opened, a stream left failed by an earlier extraction or seek)
+        is.exceptions(std::ios::goodbit);
+        is.setstate(((prestate & 1) ? std::ios::failbit : std::ios::goodbit) | ((prestate & 2) ? std::ios::badbit : std::ios::goodbit) |
+                    ((prestate & 4) ? std::ios::eofbit : std::ios::goodbit));
+    }
     alloc::begin_op(0);
     bool constructed = false;
     try {
@@ -223,6 +230,7 @@ std::string run_case(Ctx &cx, const Prepared &p, const Case &c, std::string &det
     Bytes altered;
     size_t limit = p.file.size();
     long thr = 0;
+    unsigned prestate = 0;
     switch (c.kind) {
     case K_TRUNC:
         limit = p.start + (size_t)c.at;
@@ -257,15 +265,18 @@ std::string run_case(Ctx &cx, const Prepared &p, const Case &c, std::string &det
         break;
     case K_PAIR:
         break;
+    case K_PRESTATE:
+        prestate = c.value;
+        break;
     }
     if (c.reader >= 0)
         reader = c.reader; // a different (compatible or incompatible) field type does the loading
     size_t budget = 20 * (p.file.size() / (size_t)std::max(p.d.getbuf, 1) + 8);
-    Outcome out = try_load(reader, *data, p.start, limit, p.d.getbuf, p.d.exc, thr, budget, p.d.seek != 0);
+    Outcome out = try_load(reader, *data, p.start, limit, p.d.getbuf, p.d.exc, thr, budget, p.d.seek != 0, prestate);
     if (out.leak) {
         // one-time allocations (lazily built tables, immortal caches) are not leaks: only
         // residue that comes back when the same case is repeated counts
-        out = try_load(reader, *data, p.start, limit, p.d.getbuf, p.d.exc, thr, budget, p.d.seek != 0);
+        out = try_load(reader, *data, p.start, limit, p.d.getbuf, p.d.exc, thr, budget, p.d.seek != 0, prestate);
         if (!out.leak)
             cx.cnt.inc("observed.one_time_allocation_kept_by_the_library");
     }
@@ -398,6 +409,12 @@ void enumerate_for(const Prepared &p, int kind, Rng &r, bool thorough, std::vect
         }
         break;
     }
+    case K_PRESTATE:
+        // the complete, correct dump behind a stream that is already in a failed state:
+        // no read delivers anything, so nothing may be decided on what "was read"
+        for (uint32_t v : {1u, 2u, 3u, 4u, 5u, 7u})
+            cases.push_back(Case{K_PRESTATE, 0, v, -1});
+        break;
     case K_PAIR: {
         std::string sig = format_signature(sd);
         for (int rdr = 0; rdr < g_nstacks; ++rdr) {
